@@ -39,7 +39,11 @@ theorem loadAttr_ok (doc : Bytes) (pair : Cur) (le : Err) (hv : pair.off + pair.
   unfold loadAttr
   obtain ⟨ps, hps, hin⟩ := splitOnCharN1_ok doc pair EQS hv
   rw [hps]
-  simp only [bind, Except.bind]
+  simp only [bind, Except.bind, pure, Except.pure]
+  by_cases hcap : ps.length > PAIR_CAP
+  · simp only [hcap, if_true]
+    exact ⟨_, rfl, by simp⟩
+  simp only [hcap, if_false]
   have hw : ∀ i : Nat, ViewWithin pair.off (pair.off + pair.len) ps[i]? := by
     intro i
     cases hi : ps[i]? with
@@ -116,7 +120,12 @@ theorem loadNodeDecl_ok (doc : Bytes) (decl dab : Cur) (le : Err)
       intro n hn
       simp only [Option.some.injEq] at hn
       subst hn
-      simp only [List.length_cons, SPLIT_CAP] at hcap
-      exact ⟨hin nm List.mem_cons_self, hAs.2, by simp only at hAs ⊢; omega, rfl⟩
+      simp only [List.length_cons, SPLIT_CAP_eq] at hcap
+      refine ⟨hin nm List.mem_cons_self, ?_, ?_, rfl⟩
+      · intro a ha; exact hAs.2 a (List.mem_of_mem_take ha)
+      · simp only at hAs ⊢
+        have := List.length_take_le ATTR_CAP as
+        have := ATTR_CAP_eq
+        omega
 
 end AwsVerif.Xml
